@@ -283,14 +283,32 @@ def run_property(prop, tier, seed, jobs, write_baseline, t_start):
         if qual in ("BaseProject.simulate", "BaseProject.backward_simulate"):
             # unrolling the main loop of a whole run is out of reach; a failed obligation there is reported without a model
             return {"unit": u, "obligations": [], "error": None, "unsupported": "not unrolled: too large for a counter-model search"}
-        # always in a fresh process: one z3 context per engine; the search for a counter-model is capped in wall-clock time
-        fpool = mp.Pool(1, maxtasksperchild=1)
-        try:
-            return fpool.apply_async(_work, (u,)).get(timeout=int(os.environ.get("VERIF_FALLBACK_S", "420")))
-        except mp.TimeoutError:
-            return {"unit": u, "obligations": [], "error": None, "unsupported": "counter-model search stopped after its time cap"}
-        finally:
-            fpool.terminate()
+        # always in a fresh process: one z3 context per engine; the search for a counter-model is capped in wall-clock time.
+        # The finite universe is widened step by step: a counter-example may need more objects than the first universe has
+        # (two workers + two facilities + the task = 5), while larger universes are slower and more often `unknown`.
+        deadline = time.time() + int(os.environ.get("VERIF_FALLBACK_S", "420"))
+        best = None
+        for nrefs in (u["nrefs"], u["nrefs"] + 1, u["nrefs"] + 2):
+            left = deadline - time.time()
+            if left < 20:
+                break
+            uu = dict(u, nrefs=nrefs)
+            fpool = mp.Pool(1, maxtasksperchild=1)
+            try:
+                r = fpool.apply_async(_work, (uu,)).get(timeout=left)
+            except mp.TimeoutError:
+                r = None
+            finally:
+                fpool.terminate()
+            if r is None:
+                break
+            if best is None or not best.get("obligations"):
+                best = r
+            if any(x["result"] == "sat" and x.get("model") for x in r.get("obligations", [])):
+                return r
+            if r.get("unsupported") or r.get("error"):
+                break
+        return best or {"unit": u, "obligations": [], "error": None, "unsupported": "counter-model search stopped after its time cap"}
 
     baseline_norm = {_norm(b) for b in baseline}
     fallback_cache = {}
